@@ -37,6 +37,7 @@ NBetter(a, b) == Val(a) > Val(b) \/ (Val(a) = Val(b) /\ RankKey(nodes[a].q) > Ra
 BestSubsets(S, k) == {K \in SUBSET S : Cardinality(K) = k /\ \A a \in K, b \in S \ K : ~NBetter(b, a)}
 KeyN(l, q) == <<l, "n", q>>
 KeyM(l, q) == <<l, "m", q>>
+NoKey == <<0, "none", 0>>                         \* "no such node" (same shape as a node key; layer 0 never exists)
 NoEdge == [from |-> <<>>, to |-> <<>>, dec |-> <<-1, -1>>, cost |-> 0]
 NoTheta == 999999                                   \* node.theta = None
 NewNode(q, v, ex, d) == [q |-> q, val |-> v, ex |-> ex, rl |-> FALSE, del |-> FALSE, rub |-> PosInf, dep |-> d, best |-> NoEdge, byC |-> FALSE, th |-> NoTheta]
@@ -124,57 +125,69 @@ EndLoop == /\ pc = "loop" /\ Depth = N /\ pc' = "fin"
            /\ UNCHANGED <<ii, HT, inp, cut, nodes, edges, nextL, lel, res, maxExpanded, cacheT>>
 
 \* ------------------------------------------------------------------ finalisation
-RECURSIVE ExactBestPath(_)
-ExactBestPath(k) == IF Exact(k) THEN TRUE ELSE IF nodes[k].rl THEN FALSE ELSE IF nodes[k].best = NoEdge THEN TRUE ELSE ExactBestPath(nodes[k].best.from)
+\* The best arc of a node with several equally good inbound arcs is the one created last (`value >= value_top`), i.e. it depends
+\* on iteration order.  All tied arcs are therefore candidates: an exact best path exists for SOME choice / for ALL choices.
+BestIn(k) == {e \in edges : e.to = k /\ nodes[e.from].val + e.cost = Val(k)}
+RECURSIVE SomeEBP(_)
+SomeEBP(k) == IF Exact(k) THEN TRUE ELSE IF nodes[k].rl THEN FALSE ELSE IF BestIn(k) = {} THEN TRUE ELSE \E e \in BestIn(k) : SomeEBP(e.from)
+RECURSIVE AllEBP(_)
+AllEBP(k) == IF Exact(k) THEN TRUE ELSE IF nodes[k].rl THEN FALSE ELSE IF BestIn(k) = {} THEN TRUE ELSE \A e \in BestIn(k) : AllEBP(e.from)
+\* a longest path to k, through exact nodes whenever some tied choice allows it
 RECURSIVE PathOf(_)
-PathOf(k) == IF nodes[k].best = NoEdge THEN {} ELSE {nodes[k].best.dec} \cup PathOf(nodes[k].best.from)
+PathOf(k) == IF BestIn(k) = {} THEN {}
+             ELSE LET good == {e \in BestIn(k) : SomeEBP(e.from)}
+                      e == IF good # {} THEN CHOOSE x \in good : TRUE ELSE CHOOSE x \in BestIn(k) : TRUE
+                  IN {e.dec} \cup PathOf(e.from)
 \* longest path to the terminal layer, over the final edge set (the local bound of _compute_local_bounds)
 RECURSIVE VBot(_, _)
 VBot(k, term) == IF k \in term THEN 0
                  ELSE LET outs == {e \in edges : e.from = k}
                           vs == {Plus(e.cost, VBot(e.to, term)) : e \in outs} \ {NegInf}
                       IN IF vs = {} THEN NegInf ELSE Max(vs)
-Sol(k) == IF k = <<>> THEN [some |-> FALSE, decs |-> <<>>] ELSE [some |-> TRUE, decs |-> SetToSeq(RootPath \cup PathOf(k))]
+Sol(k) == IF k = NoKey THEN [some |-> FALSE, decs |-> <<>>] ELSE [some |-> TRUE, decs |-> SetToSeq(RootPath \cup PathOf(k))]
 \* max_by_key over a hash map: among equally good terminal nodes any one may be the best node (and the best exact node)
-ArgMax(S) == IF S = {} THEN {<<>>} ELSE {k \in S : \A j \in S : Val(j) <= Val(k)}
+ArgMax(S) == IF S = {} THEN {NoKey} ELSE {k \in S : \A j \in S : Val(j) <= Val(k)}
 Finalize == /\ pc = "fin"
-            /\ \E bestN \in ArgMax(nextL), bestE0 \in ArgMax({k \in nextL : Exact(k)}) :
-               LET term == nextL
-                   isEx == lel = 0
-                   hebp == inp.type = "relaxed" /\ (bestN = <<>> \/ ExactBestPath(bestN))
-                   bestE == IF hebp THEN bestN ELSE bestE0
-                   lelI == IF lel = 0 THEN Len(layers) + 1 ELSE lel
-                   cutset == IF ~(inp.type = "relaxed" \/ isEx) THEN {}
-                             ELSE IF cut = "lel" THEN (IF lelI <= Len(layers) THEN layers[lelI] ELSE {})
-                             ELSE {e.from : e \in {f \in edges : ~Exact(f.to) /\ Exact(f.from)}}
-                   doLocb == inp.type = "relaxed" /\ lelI <= Len(layers)
-                   bv == IF bestN = <<>> THEN NegInf ELSE Val(bestN)
-                   out == IF bestN = <<>> THEN {} ELSE
-                          {[st |-> StOf(nodes[k].dep, nodes[k].q), depth |-> nodes[k].dep, value |-> Val(k), path |-> SetToSeq(RootPath \cup PathOf(k)),
-                            ub |-> Min2(Min2(Plus(Val(k), nodes[k].rub), Plus(Val(k), VBot(k, term))), bv)]
-                              : k \in {c \in cutset : doLocb /\ VBot(c, term) > NegInf}}
-                   \* ---- _compute_thresholds: bottom-up thresholds and the cache updates they produce
-                   doTh == inp.type = "relaxed" \/ isEx
-                   bev0 == IF bestE = <<>> THEN NegInf ELSE Val(bestE)
-                   bestKnown == Max2(inp.best_lb, bev0)
-                   aboveK == IF cut = "lel" THEN UNION {layers[j] : j \in 1..(IF lelI <= Len(layers) THEN lelI ELSE Len(layers))}
-                             ELSE {k \in DOMAIN nodes : Exact(k)}
-                   vb(k) == IF doLocb THEN VBot(k, term) ELSE NegInf
-                   SubT(a, b2) == IF a >= PosInf \div 2 THEN (IF a = NoTheta THEN NoTheta ELSE PosInf) ELSE IF b2 >= PosInf \div 2 THEN NegInf ELSE IF b2 <= NegInf \div 2 THEN PosInf ELSE a - b2
-                   ThInit(k) == IF k \in term /\ bestE # <<>> /\ ((cut = "lel" /\ isEx) \/ (cut = "fc" /\ Exact(k))) THEN bestKnown ELSE nodes[k].th
-                   Theta[k \in DOMAIN nodes] ==
-                       IF nodes[k].del THEN NoTheta
-                       ELSE LET kids == {e \in edges : e.from = k /\ Theta[e.to] # NoTheta}
-                                fk == Min({ThInit(k)} \cup {SubT(Theta[e.to], e.cost) : e \in kids})
-                            IN IF nodes[k].byC THEN fk
-                               ELSE IF Plus(Val(k), nodes[k].rub) <= bestKnown THEN SubT(bestKnown, nodes[k].rub)
-                               ELSE IF k \in cutset THEN (IF Plus(Val(k), vb(k)) <= bestKnown THEN Min2(IF fk = NoTheta THEN PosInf ELSE fk, SubT(bestKnown, vb(k))) ELSE Val(k))
-                               ELSE IF Exact(k) /\ fk = NoTheta THEN PosInf
-                               ELSE fk
-                   cu == IF ~doTh THEN {} ELSE {[d |-> nodes[k].dep, st |-> StOf(nodes[k].dep, nodes[k].q), v |-> Theta[k], e |-> k \notin cutset] :
-                                                  k \in {j \in aboveK : ~nodes[j].del /\ ~nodes[j].byC /\ Theta[j] # NoTheta}}
-               IN res' = [ok |-> TRUE, exact |-> isEx \/ hebp, bv |-> bv, bev |-> IF bestE = <<>> THEN NegInf ELSE Val(bestE),
-                          besol |-> Sol(bestE), bsol |-> Sol(bestN), cs |-> out, cu |-> cu]
+            /\ \E bestN \in ArgMax(nextL), bestE0 \in ArgMax({k \in nextL : Exact(k)}), hebp \in BOOLEAN :
+               \* (IF-THEN-ELSE, not disjunctions: inside an action TLC explores both sides of a disjunction)
+               /\ hebp \in {b \in BOOLEAN : IF inp.type # "relaxed" THEN ~b
+                                              ELSE IF bestN = NoKey THEN b
+                                              ELSE (IF b THEN SomeEBP(bestN) ELSE ~AllEBP(bestN))}
+               /\ LET term == nextL
+                       isEx == lel = 0
+                       bestE == IF hebp THEN bestN ELSE bestE0
+                       lelI == IF lel = 0 THEN Len(layers) + 1 ELSE lel
+                       cutset == IF ~(inp.type = "relaxed" \/ isEx) THEN {}
+                                 ELSE IF cut = "lel" THEN (IF lelI <= Len(layers) THEN layers[lelI] ELSE {})
+                                 ELSE {e.from : e \in {f \in edges : ~Exact(f.to) /\ Exact(f.from)}}
+                       doLocb == inp.type = "relaxed" /\ lelI <= Len(layers)
+                       bv == IF bestN = NoKey THEN NegInf ELSE Val(bestN)
+                       out == IF bestN = NoKey THEN {} ELSE
+                              {[st |-> StOf(nodes[k].dep, nodes[k].q), depth |-> nodes[k].dep, value |-> Val(k), path |-> SetToSeq(RootPath \cup PathOf(k)),
+                                ub |-> Min2(Min2(Plus(Val(k), nodes[k].rub), Plus(Val(k), VBot(k, term))), bv)]
+                                  : k \in {c \in cutset : doLocb /\ VBot(c, term) > NegInf}}
+                       \* ---- _compute_thresholds: bottom-up thresholds and the cache updates they produce
+                       doTh == inp.type = "relaxed" \/ isEx
+                       bev0 == IF bestE = NoKey THEN NegInf ELSE Val(bestE)
+                       bestKnown == Max2(inp.best_lb, bev0)
+                       aboveK == IF cut = "lel" THEN UNION {layers[j] : j \in 1..(IF lelI <= Len(layers) THEN lelI ELSE Len(layers))}
+                                 ELSE {k \in DOMAIN nodes : Exact(k)}
+                       vb(k) == IF doLocb THEN VBot(k, term) ELSE NegInf
+                       SubT(a, b2) == IF a >= PosInf \div 2 THEN (IF a = NoTheta THEN NoTheta ELSE PosInf) ELSE IF b2 >= PosInf \div 2 THEN NegInf ELSE IF b2 <= NegInf \div 2 THEN PosInf ELSE a - b2
+                       ThInit(k) == IF k \in term /\ bestE # NoKey /\ ((cut = "lel" /\ isEx) \/ (cut = "fc" /\ Exact(k))) THEN bestKnown ELSE nodes[k].th
+                       Theta[k \in DOMAIN nodes] ==
+                           IF nodes[k].del THEN NoTheta
+                           ELSE LET kids == {e \in edges : e.from = k /\ Theta[e.to] # NoTheta}
+                                    fk == Min({ThInit(k)} \cup {SubT(Theta[e.to], e.cost) : e \in kids})
+                                IN IF nodes[k].byC THEN fk
+                                   ELSE IF Plus(Val(k), nodes[k].rub) <= bestKnown THEN SubT(bestKnown, nodes[k].rub)
+                                   ELSE IF k \in cutset THEN (IF Plus(Val(k), vb(k)) <= bestKnown THEN Min2(IF fk = NoTheta THEN PosInf ELSE fk, SubT(bestKnown, vb(k))) ELSE Val(k))
+                                   ELSE IF Exact(k) /\ fk = NoTheta THEN PosInf
+                                   ELSE fk
+                       cu == IF ~doTh THEN {} ELSE {[d |-> nodes[k].dep, st |-> StOf(nodes[k].dep, nodes[k].q), v |-> Theta[k], e |-> k \notin cutset] :
+                                                      k \in {j \in aboveK : ~nodes[j].del /\ ~nodes[j].byC /\ Theta[j] # NoTheta}}
+                   IN res' = [ok |-> TRUE, exact |-> isEx \/ hebp, bv |-> bv, bev |-> IF bestE = NoKey THEN NegInf ELSE Val(bestE),
+                              besol |-> Sol(bestE), bsol |-> Sol(bestN), cs |-> out, cu |-> cu]
             /\ pc' = "done" /\ UNCHANGED <<ii, HT, inp, cut, nodes, edges, layers, nextL, lel, maxExpanded, cacheT>>
 Next == Pick \/ Layer \/ EndLoop \/ Finalize \/ (pc = "done" /\ UNCHANGED vars)
 Spec == Init /\ [][Next]_vars
